@@ -380,6 +380,13 @@ func genPipe(r *Rng, tier string, profile string) *pipeCase {
 	if profile == "C08" {
 		c.nch = r.Pick(1, 1, 2)
 	}
+	// directed share of C01: an edge-multi channel is the group-trigger SOURCE of channels that are in
+	// another trigger mode (their secondaries are cut at frames found by the edge-multi search, possibly
+	// one block late) - needs every channel to retain the same history
+	mixed := profile == "C01" && r.Chance(12)
+	if mixed {
+		c.nch = r.Pick(2, 2, 3)
+	}
 	c.rate = float64(r.Pick(1000, 10000, 100000, 125000))
 	c.periodNs = int64(1e9 / c.rate)
 	sizes := [][2]int{{3, 4}, {3, 8}, {4, 8}, {4, 9}, {5, 12}, {6, 15}, {8, 20}, {10, 40}, {16, 64}}
@@ -393,6 +400,9 @@ func genPipe(r *Rng, tier string, profile string) *pipeCase {
 		c.signed[ch] = r.Chance(30)
 	}
 	total := r.Range(c.nsamp, 12*c.nsamp)
+	if mixed {
+		total = r.Range(6*c.nsamp, 16*c.nsamp)
+	}
 	if profile != "C01" {
 		total = r.Range(3*c.nsamp, 30*c.nsamp)
 	}
@@ -401,7 +411,7 @@ func genPipe(r *Rng, tier string, profile string) *pipeCase {
 	}
 	c.streams = make([][]dastard.RawType, c.nch)
 	for ch := range c.streams {
-		c.streams[ch] = genStreamHot(r, total, c.nsamp, c.signed[ch], profile != "C01" && r.Chance(80))
+		c.streams[ch] = genStreamHot(r, total, c.nsamp, c.signed[ch], (profile != "C01" && r.Chance(80)) || mixed)
 	}
 	// start of the run: restored settings and/or a ConfigureTriggers request
 	c.saved = map[int]tsSpec{}
@@ -410,6 +420,9 @@ func genPipe(r *Rng, tier string, profile string) *pipeCase {
 	startStyle := r.Intn(4)
 	if profile == "C08" {
 		startStyle = 1
+	}
+	if mixed {
+		startStyle = 4 // handled below
 	}
 	if startStyle == 0 || startStyle == 3 { // restored settings
 		for ch := 0; ch < c.nch; ch++ {
@@ -425,7 +438,18 @@ func genPipe(r *Rng, tier string, profile string) *pipeCase {
 		}
 		return out
 	}
-	if startStyle >= 1 { // explicit configuration before the first block
+	if mixed {
+		c.ops = append(c.ops, pipeOp{kind: "T", chans: []int{0}, ts: genTS(r, c.nsamp, true, true)})
+		rest := allChans()[1:]
+		if r.Chance(70) {
+			c.ops = append(c.ops, pipeOp{kind: "T", chans: rest, ts: genTS(r, c.nsamp, false, false)})
+		}
+		ps := [][2]int{{0, 1}}
+		if c.nch > 2 && r.Chance(60) {
+			ps = append(ps, [2]int{0, 2})
+		}
+		c.ops = append(c.ops, pipeOp{kind: "GA", pairs: ps})
+	} else if startStyle >= 1 { // explicit configuration before the first block
 		c.ops = append(c.ops, pipeOp{kind: "T", chans: allChans(), ts: genTS(r, c.nsamp, allowEMT, onlyEMT)})
 		if c.nch > 1 && r.Chance(40) && !onlyEMT {
 			c.ops = append(c.ops, pipeOp{kind: "T", chans: []int{r.Intn(c.nch)}, ts: genTS(r, c.nsamp, allowEMT, false)})
